@@ -123,8 +123,10 @@ def match_known(entry, unit, ob):
     name = ob.get("name", "")
     if "witness" in m:
         # witness-restricted entries are decided inside the harness (it re-proves the obligation
-        # outside the witness class); only obligations it tagged belong to the finding
-        return name.endswith("@known:" + entry["id"])
+        # outside the union of the matching witness classes); only obligations it tagged belong here
+        if name.endswith("@known:" + entry["id"]):
+            return True
+        return "@known:" in name and entry["id"] in str(ob.get("detail") or "")
     if "obligation" in m and not re.search(m["obligation"], name):
         return False
     if "detail" in m and not re.search(m["detail"], str(ob.get("detail") or "")):
@@ -218,6 +220,9 @@ class Verdict:
                         break
                 if hit is not None:
                     self.known.append((hit, unit, ob))
+                    for e in known_entries:
+                        if e is not hit and "@known:" in ob.get("name", "") and e.get("id", "?") in str(ob.get("detail") or ""):
+                            self.known.append((e, unit, ob))
                     nf_known += 1
                 else:
                     self.violations.append([unit, ob, None, None])
@@ -312,3 +317,37 @@ class Verdict:
         for u, w in self.errors[:8]:
             print(f"  checker-error: {u}: {str(w)[:600]}")
         return code
+
+
+def prove_with_known(eng, name, cond, detail, known, namespace=None, text=None):
+    """eng.prove(name, cond); when it fails and listed findings with a witness class match, re-prove the
+    obligation outside the union of those classes: inside only => tagged as that known finding,
+    otherwise the counter-model outside the classes is reported (a different violation)."""
+    import z3
+    r = eng.prove(name, cond, detail=detail)
+    if r is not False or not known:
+        return r
+    hits = []
+    for e in known:
+        m = e.get("match", {})
+        if "witness" not in m:
+            continue
+        if not re.search(m.get("obligation", ""), name):
+            continue
+        if text is not None and not re.search(m.get("detail", ""), text):
+            continue
+        hits.append(e)
+    if not hits:
+        return r
+    ns = {"__builtins__": {}, "z3": z3}
+    ns.update(namespace or {})
+    wits = [eval(e["match"]["witness"], ns, dict(eng.inputs)) for e in hits]
+    o = eng.run.obligations[-1]
+    r2 = eng.prove(name + "@outside-known-witness", z3.Or(wits + [cond]), detail=detail)
+    aux = eng.run.obligations.pop()
+    if r2:
+        o.name = name + "@known:" + hits[0]["id"]
+        o.detail = f"{detail or ''} [only within the witness class of {', '.join(e['id'] for e in hits)}]"
+    else:
+        o.model = aux.model
+    return r
